@@ -272,3 +272,13 @@ Proof.
   { apply (omap_map (q2dec S)); [|exact Ew]. intros x y Hxy. apply (q2dec_sound S); assumption. }
   rewrite E1, E2 in H. exact H.
 Qed.
+
+(* instances for binary64 tables (b = 2) *)
+Lemma two_le_2 : (2 <= 2)%Z.
+Proof. lia. Qed.
+Definition tri_rule_ok_sound_b2 := tri_rule_ok_sound 2 two_le_2.
+Definition gauss1d_ok_sound_b2 := gauss1d_ok_sound 2 two_le_2.
+Definition shapes_ok_sound_b2 := shapes_ok_sound 2 two_le_2.
+Definition shapes1d_ok_sound_b2 := shapes1d_ok_sound 2 two_le_2.
+Definition faces_ok_sound_b2 := faces_ok_sound 2 two_le_2.
+Definition nodes1d_ok_sound_b2 := nodes1d_ok_sound 2 two_le_2.
